@@ -139,6 +139,17 @@ CLAIMS = {
   "technique": "static analysis: structural pairing (slot write / notification), argument provenance, guarded index normal forms",
   "design_ref": "DESIGN.md section 4, C13",
  },
+ "C12": {
+  "text": "Guards and layout shapes only: every run-time size product/sum behind its SIZE_MAX guard (doubling sites are named "
+          "exceptions with their repair tests), public getters reach storage only in range, ELASTICARRAY_DECL wrappers agree on the "
+          "record size, the byte-layout expressions of append/get/getsize/shrink/export and the queue/map bookkeeping steps, and the "
+          "pool's atexit registration and stack discipline. These are necessary conditions; the refinement of the ideal models is "
+          "explicitly not decided.",
+  "note": "Not decided: equality with the ideal array/queue/map over operation histories, FIFO order, the factor-4 bound, 'never "
+          "hands out an object in use' beyond push/pop discipline (invariants over unbounded histories). Failure atomicity is C14.",
+  "technique": "static analysis: overflow-guard dominance, in-range edge rules, sibling agreement, structural layout expressions",
+  "design_ref": "DESIGN.md section 4, C12",
+ },
 }
 
 NOT_APPLICABLE = {
